@@ -1,5 +1,6 @@
-import NfcVerif.Model.IsoDep
-open NfcVerif NfcVerif.IsoDep
+import NfcVerif.Model.IsoDepV2
+open NfcVerif NfcVerif.IsoDep2
+open NfcVerif.IsoDep (Card CardCfg World Peer Fault isoPeer encodeApdu)
 
 /-- the application used by the correspondence runs: `rlen` body octets depending on the
 command, on the execution number and on the position, followed by the status word -/
@@ -16,7 +17,8 @@ def parseScript (s : String) : Option (List Fault) :=
 def hexList (l : List Bytes) : String :=
   if l.isEmpty then "." else ",".intercalate (l.map toHex)
 
-def FUEL : Nat := 1000
+/-- enough for every loop of the repaired initiator (`fuelNeed ≤ 966657` after any activation) -/
+def FUEL : Nat := 1000000
 
 def nats (l : List String) : Option (List Nat) := l.mapM String.toNat?
 
@@ -61,36 +63,68 @@ def runRaw : List String → Pcd → World (List (Option Bytes)) → List String
       let r := exchange scriptPeer FUEL pcd cmd w
       runRaw cs r.2.1 r.1 (showPy toHex r.2.2 :: acc)
 
-def showPcd (p : Pcd) : String := s!"{p.miu} {p.nNak} {p.nAck} {p.pni}"
+/-- a card that answers from a list and then repeats a second list for ever (`none` = mute; an empty second list: mute
+for ever): the endless S(WTX) / R(ACK) / chaining floods and what a card may do before it starts one -/
+def cyclePeer : Peer (List (Option Bytes) × List (Option Bytes) × Nat) :=
+  ⟨fun st _ => match st with
+    | (r :: rest, cyc, k) => ((rest, cyc, k), r)
+    | ([], cyc, k) => match cyc[k % cyc.length]? with
+      | some r => (([], cyc, (k + 1) % cyc.length), r)
+      | none => (([], cyc, k), none)⟩
+
+def runCyc : List String → Pcd → World (List (Option Bytes) × List (Option Bytes) × Nat) → List String → Option String
+  | [], pcd, w, acc =>
+    let fl := match pcd.failed with | some e => s!"{e}" | none => "none"
+    -- the trace of a flood is long: its length, its first 12 and its last 3 blocks
+    let tr := w.trace
+    let shown := if tr.length ≤ 15 then hexList tr else hexList (tr.take 12) ++ ",.," ++ hexList (tr.drop (tr.length - 3))
+    some (";".intercalate acc.reverse ++ s!" | {pcd.pni}/{fl} | {tr.length} | {shown}")
+  | c :: cs, pcd, w, acc =>
+    if c = "N" then
+      let r := presence cyclePeer pcd w
+      runCyc cs pcd r.1 (showPy (fun _ => "-") r.2 :: acc)
+    else match parseHex c with
+    | none => none
+    | some cmd =>
+      let r := exchange cyclePeer FUEL pcd cmd w
+      runCyc cs r.2.1 r.1 (showPy toHex r.2.2 :: acc)
+
+def showPcd (p : Pcd) : String := s!"{p.miu} {p.nNak} {p.nAck} {p.pni} {p.wlim}"
 
 def handle (line : String) : String :=
   match line.splitOn " " with
-  | ["seq", miu, nNak, nAck, chunk, wI, wA, wC, wtxm, rlen, sw, script, cmds] =>
-    match miu.toInt?, nats [nNak, nAck], nats [chunk, wI, wA, wC, wtxm, rlen], parseHex sw, parseScript script with
-    | some miu, some [nNak, nAck], some ps, some sw, some sc =>
+  | ["seq", miu, nNak, nAck, wlim, chunk, wI, wA, wC, wtxm, rlen, sw, script, cmds] =>
+    match miu.toInt?, nats [nNak, nAck, wlim], nats [chunk, wI, wA, wC, wtxm, rlen], parseHex sw, parseScript script with
+    | some miu, some [nNak, nAck, wlim], some ps, some sw, some sc =>
       match mkCfg ps sw with
       | some cfg =>
-        (runSeq cfg (cmds.splitOn ",") { pni := 0, miu := miu, nNak := nNak, nAck := nAck }
+        (runSeq cfg (cmds.splitOn ",") { pni := 0, miu := miu, nNak := nNak, nAck := nAck, wlim := wlim }
           { card := Card.init, script := sc, trace := [] } []).getD "bad-op"
       | none => "bad-op"
     | _, _, _, _, _ => "bad-op"
-  | ["apdu", miu, nNak, nAck, chunk, wI, wA, wC, wtxm, rlen, sw, script, ext, cla, ins, p1, p2, data, mrl, check] =>
-    match miu.toInt?, nats [nNak, nAck], nats [chunk, wI, wA, wC, wtxm, rlen], parseHex sw, parseScript script,
+  | ["apdu", miu, nNak, nAck, wlim, chunk, wI, wA, wC, wtxm, rlen, sw, script, ext, cla, ins, p1, p2, data, mrl, check] =>
+    match miu.toInt?, nats [nNak, nAck, wlim], nats [chunk, wI, wA, wC, wtxm, rlen], parseHex sw, parseScript script,
           nats [ext, cla, ins, p1, p2, mrl, check], parseHex data with
-    | some miu, some [nNak, nAck], some ps, some sw, some sc, some [ext, cla, ins, p1, p2, mrl, check], some data =>
+    | some miu, some [nNak, nAck, wlim], some ps, some sw, some sc, some [ext, cla, ins, p1, p2, mrl, check], some data =>
       match mkCfg ps sw with
       | some cfg =>
-        let r := sendApdu (isoPeer cfg) FUEL { pni := 0, miu := miu, nNak := nNak, nAck := nAck } (ext != 0)
+        let r := sendApdu (isoPeer cfg) FUEL { pni := 0, miu := miu, nNak := nNak, nAck := nAck, wlim := wlim } (ext != 0)
                   cla ins p1 p2 data mrl (check != 0) { card := Card.init, script := sc, trace := [] }
         showState [showPy toHex r.2.2] r.2.1 r.1
       | none => "bad-op"
     | _, _, _, _, _, _, _ => "bad-op"
-  | ["raw", miu, nNak, nAck, replies, cmds] =>
-    match miu.toInt?, nats [nNak, nAck], parseReplies replies with
-    | some miu, some [nNak, nAck], some rs =>
-      (runRaw (cmds.splitOn ",") { pni := 0, miu := miu, nNak := nNak, nAck := nAck }
+  | ["raw", miu, nNak, nAck, wlim, replies, cmds] =>
+    match miu.toInt?, nats [nNak, nAck, wlim], parseReplies replies with
+    | some miu, some [nNak, nAck, wlim], some rs =>
+      (runRaw (cmds.splitOn ",") { pni := 0, miu := miu, nNak := nNak, nAck := nAck, wlim := wlim }
         { card := rs, script := [], trace := [] } []).getD "bad-op"
     | _, _, _ => "bad-op"
+  | ["cyc", miu, nNak, nAck, wlim, script, pre, cyc, cmds] =>
+    match miu.toInt?, nats [nNak, nAck, wlim], parseScript script, parseReplies pre, parseReplies cyc with
+    | some miu, some [nNak, nAck, wlim], some sc, some pre, some cyc =>
+      (runCyc (cmds.splitOn ",") { pni := 0, miu := miu, nNak := nNak, nAck := nAck, wlim := wlim }
+        { card := (pre, cyc, 0), script := sc, trace := [] } []).getD "bad-op"
+    | _, _, _, _, _ => "bad-op"
   | ["act", kind, h, maxSend] =>
     match parseHex h, maxSend.toNat? with
     | some b, some m =>
